@@ -396,7 +396,33 @@ fn leaves_k3() -> Vec<String> {
 /// Every value in every notation that can express it.
 fn notations() -> Vec<String> {
     let mut v = vec![];
-    for n in [0u64, 1, 5, 31, 255, 1000, 65536, 1_000_000, 4294967296] {
+    // ... including the values at which a machine word ends (a reader that takes a short cut through
+    // u32/i64/u64/u128 for literals that fit goes wrong exactly there)
+    for n in [
+        0u128,
+        1,
+        5,
+        31,
+        255,
+        1000,
+        65536,
+        1_000_000,
+        4294967296,
+        (1 << 31) - 1,
+        1 << 31,
+        (1 << 32) - 1,
+        (1 << 53) + 1,
+        (1 << 63) - 1,
+        1 << 63,
+        (1 << 63) + 1,
+        u64::MAX as u128 - 1,
+        u64::MAX as u128,
+        1 << 64,
+        (1 << 64) + 1,
+        0xfedcba9876543210,
+        1 << 127,
+        u128::MAX,
+    ] {
         v.push(format!("{}", n));
         v.push(format!("0x{:x}", n));
         v.push(format!("0x{:X}", n));
@@ -517,6 +543,8 @@ impl C01 {
             add(1, &OPS14, notations()[..40].to_vec(), false);
             add(2, &OPS13, leaves_core(), true);
         }
+        // every notation of every boundary value as a literal of its own (with either sign)
+        add(0, &OPS14, notations(), true);
         add(0, &OPS14, separators(&SEP_BASES), true);
         add(1, &OPS14, separators(&SEP_BASES[..3]), false);
         // exponent / shift-count sweep: `a op k` for every integer k in -130..=130
@@ -619,7 +647,7 @@ impl Space for C01 {
         Meta {
             id: "C01",
             level: "exploration",
-            rule: "every expression tree with <=2 (quick) / <=3 (thorough) binary operator nodes over 14 operators (+ - * / | juxtaposition ^ ** mod << >> and or xor), optional unary sign, plus the sweep `a op k` for 8 operators x 6 bases x every integer k in -130..130 (word-size boundaries 31/32/63/64/127/128), and a boundary-value literal alphabet (all notations: decimal/fraction/exponent/hex/octal/binary; a `_` or U+2009 digit separator at every accepted position of 17 literals - integer part, fraction, after the point, around the exponent marker, after a radix prefix - singly and all at once; 2^64+-1, 2^128+1, 1e30, 2^4096+1, 1e-40, 1e-400 and 1e400 beyond the f64 range); each rendered fully parenthesised, minimally parenthesised per the manual's precedence table, AND fully parenthesised with every token in its other spelling (`per`, U+2212 minus, U+2215 division slash, `**` <-> `^`, trailing `// comment`), evaluated by rink and by an independent BigRational evaluator. Non-trivial = the reference defines a value or an undefined-case (not skipped as fractional-exponent/expensive); distinct = by rendered text".into(),
+            rule: "every expression tree with <=2 (quick) / <=3 (thorough) binary operator nodes over 14 operators (+ - * / | juxtaposition ^ ** mod << >> and or xor), optional unary sign, plus the sweep `a op k` for 8 operators x 6 bases x every integer k in -130..130 (word-size boundaries 31/32/63/64/127/128), and a boundary-value literal alphabet (all notations: decimal/fraction/exponent/hex/octal/binary of 23 values incl. 2^31-1, 2^31, 2^32-1, 2^53+1, 2^63-1, 2^63, 2^63+1, 2^64-2, 2^64-1, 2^64, 2^64+1, 2^127, 2^128-1, each also as a literal of its own; a `_` or U+2009 digit separator at every accepted position of 17 literals - integer part, fraction, after the point, around the exponent marker, after a radix prefix - singly and all at once; 2^64+-1, 2^128+1, 1e30, 2^4096+1, 1e-40, 1e-400 and 1e400 beyond the f64 range); each rendered fully parenthesised, minimally parenthesised per the manual's precedence table, AND fully parenthesised with every token in its other spelling (`per`, U+2212 minus, U+2215 division slash, `**` <-> `^`, trailing `// comment`), evaluated by rink and by an independent BigRational evaluator. Non-trivial = the reference defines a value or an undefined-case (not skipped as fractional-exponent/expensive); distinct = by rendered text".into(),
             assumptions: vec![
                 "num-bigint/num-rational arithmetic is correct (shared trusted base)".into(),
                 "explicit `*` associates with `/` at one level, left to right (as the repository's own parser tests pin)".into(),
